@@ -153,15 +153,23 @@ Definition space_of_model (n : nat) (M : interp) : space :=
 Definition model_of_space (S : space) : interp :=
   fun p => match nth (fst p) S None with Some v => Bool.eqb v (negb (snd p)) | None => false end.
 
+(* avoid spaces are processed in order; an empty one (covering everything) emits #false and stops *)
+Fixpoint avoid_rules (avoid : list space) : list rule :=
+  match avoid with
+  | [] => []
+  | a :: r => match fixed_vars a with
+              | [] => [RFalse]
+              | fv => RConstraint fv :: avoid_rules r
+              end
+  end.
+
 (* _create_clingo_fixed_point_constraints (on the reduced net) *)
 Definition deadlock_program (pn : pnet) (ensure : space) (avoid : list space) : list rule :=
   flat_map (fun v => [RChoice (v, true); RChoice (v, false); RConstraint [(v, true); (v, false)];
                       RDisj [(v, true); (v, false)] []]) (p_vars pn)
   ++ map (fun t => RConstraint (pre_places t)) (p_trans pn)
   ++ map (fun vb => RFact vb) (fixed_vars ensure)
-  ++ (if existsb (fun a => match fixed_vars a with [] => true | _ => false end) avoid
-      then [RFalse]
-      else map (fun a => RConstraint (fixed_vars a)) avoid).
+  ++ avoid_rules avoid.
 
 (* _clingo_model_to_fixed_point: positive polarity *)
 Definition state_of_model (n : nat) (M : interp) : state := map (fun v => M (v, true)) (seq 0 n).
